@@ -119,3 +119,19 @@ Theorem C05_shape_ok_spec : forall proto hn,
   /\ hn <> bs "localhost" /\ hn <> bs "127.0.0.1" /\ substring (bs ".") hn.
 Proof. exact shape_ok_spec_lemma. Qed.
 Print Assumptions C05_shape_ok_spec.
+
+(* ---- lifted through the pipeline LTS of C01 (Pipe/PipeScope.v) -----------------------------------
+   In EVERY execution of the whole pipeline (any worker count, any interleaving, any number of
+   seeds and passes, any site behaviour) whose pre-processing answers come from the scope rule
+   under the operator configuration [oc], every node that carries a request - in any seed's tree
+   while the seed sits between the preprocessor and the archiver, i.e. everything the archiver
+   is about to fetch - was accepted: well-shaped and in scope. *)
+From ZenoV Require Import Tree.Item Stage.Pass Pipe.PipeLts Pipe.PipeScope.
+Theorem C05_fetch_implies_scope_in_pipeline : forall oc w c rows ls s,
+  NoDup (map row_id rows) -> Forall (scoped oc) ls -> run (init w c rows) ls = Some s ->
+  forall k x m, (k = 4 \/ k = 5)%nat -> In x (place k s) -> In m (flatten (s_tree x)) -> st_of m = PreProcessed ->
+    exists nvs proto hn v,
+      nvs (id_of m) = NVAda proto hn (Some v) /\ v_url v = url_of m /\ shape_ok proto hn = true
+      /\ in_scope (gen_cfg oc) (v_host1 v) (v_text v) (v_bits v) = true.
+Proof. exact pipeline_fetch_implies_scope. Qed.
+Print Assumptions C05_fetch_implies_scope_in_pipeline.
